@@ -168,8 +168,7 @@ def handle (args : List Sexp) : String :=
        let n := l.toNat
        let y := (arrayLitY Generated.C12.tcFacts isArray n elems 0 0 []).verdict
        let g := (Spec.arrayLitG (if isArray then some n else none) elems 0 []).verdict
-       -- the only listed class: a constant key into an array of length 0 (check.index returns before the bound test)
-       let lax := if y == g then "none" else if isArray && n == 0 then Lax.constantIndexZeroLengthArray.name else Lax.other.name
+       let lax := if y == g then "none" else Lax.other.name
        s!"y={y.show} g={g.show} lax={lax}"
      | _, _ => "bad-op")
   | [.atom "pipeline", cf, nr] =>
